@@ -35,7 +35,7 @@ fn main() {
     }
     let opts = common::Opts::parse(&args[1..]);
     match args[0].as_str() {
-        "selftest" => selftest::run(&opts),
+        "selftest" => if opts.extra.first().map(|s| s.as_str()) == Some("pool") { selftest::run_pool(&opts) } else { selftest::run(&opts) },
         "C01" => c01::run(&opts),
         "C02" => c02::run(&opts),
         "C03" => c03::run(&opts),
